@@ -960,7 +960,11 @@ func opReferenceChangeJournal(ctx context.Context, pc *uint64, interpreter *EVMI
 	}
 
 	u64Ceiling := func(nom, denom uint64) uint64 {
-		return (nom + denom - 1) / denom
+		// nom + denom - 1 would wrap around for lengths close to 2^64
+		if nom%denom == 0 {
+			return nom / denom
+		}
+		return nom/denom + 1
 	}
 
 	keccak := func(interpreter *EVMInterpreter, data []byte) []byte {
